@@ -10,9 +10,16 @@ ASSUME \A t \in 1..NT : TLCSet(t, 0)
 TInit == Init /\ tid \in 1..NT /\ l = 1
 Ev == Traces[tid].ev[l]
 A  == Ev.a
+\* The statement allows the code to store MORE than the transcribed writer does, provided it reads back in normal form
+\* (the replay direction reports such collections as "faithful but unmodelled" notes, not as violations):
+WriteBeyond == /\ phase = "build" /\ vals # <<>> /\ Plan(vals).out = "reject"
+               /\ store' = [st |-> "beyond", k |-> "", data |-> <<>>, flags |-> {}, attrs |-> <<>>, cls |-> ""]
+               /\ side' = <<>> /\ phase' = "stored" /\ UNCHANGED <<vals, back>>
+ReadBeyond  == /\ phase = "stored" /\ store.st = "beyond"
+               /\ back' = NF(vals) /\ phase' = "read" /\ UNCHANGED <<vals, store, side>>
 Step == \/ A.n = "Assign" /\ AssignAny(A.e)
-        \/ A.n = "Write" /\ (WriteStore \/ WriteRefuse)
-        \/ A.n = "Read" /\ Read
+        \/ A.n = "Write" /\ (WriteStore \/ WriteRefuse \/ WriteBeyond)
+        \/ A.n = "Read" /\ (Read \/ ReadBeyond)
 \* exact dtypes are observations only where the specification determines them (I4)
 Relax(nf, got) == [i \in Ix(got) |-> IF i <= Len(nf) /\ nf[i].t = "seq" /\ got[i].t = "seq" /\ nf[i].d = ""
                                      THEN [got[i] EXCEPT !.d = ""] ELSE got[i]]
